@@ -1,7 +1,7 @@
 (* C12 — Commit is durable and versions are readable. Statements only. L2 model: the iavl library is
    its contract (SaveVersion / DeleteVersion one atomic batch each, LoadVersion(target) needs target). *)
 From Coq Require Import List ZArith NArith Bool Permutation.
-From PM Require Import Base.Bytes Store.KV Store.MergeProofs Store.RootMulti Store.RootMultiProofs.
+From PM Require Import Base.Bytes Store.KV Store.MergeProofs Store.RootMulti Store.RootMultiProofs Store.MultiCrash.
 Import ListNotations.
 Local Open Scope Z_scope.
 
@@ -39,6 +39,18 @@ Example C12_ex :
     | _ => False end
   | _ => False end.
 Proof. vm_compute. repeat split; reflexivity. Qed.
+(* THE WHOLE MULTISTORE, any number of substores: after a commit that ran to the end, stopping and reopening gives
+   every substore at the new version with exactly the content its working tree had, and the commit id reported by
+   Commit is the one the reopened store reports *)
+Theorem C12_multistore_commit_durable ms ms' : 0 <= keep_recent (ms_prune ms) -> 0 <= fst (ms_last ms) ->
+  NoDup (map fst (ms_trees ms)) ->
+  (forall n t, In (n, t) (ms_trees ms) -> 0 <= t_ver t /\ vget (t_disk t) (t_ver t + 1) = None) ->
+  commit ms None = Some (ms', false) ->
+  exists ms2, reopen ms' = Some ms2 /\ ms_last ms2 = ms_last ms' /\ ms_latest ms2 = fst (ms_last ms) + 1 /\
+    Forall2 (fun l nt => fst l = fst nt /\ t_work (snd l) = t_work (snd nt) /\ t_ver (snd l) = t_ver (snd nt) + 1)
+            (ms_trees ms2) (ms_trees ms).
+Proof. exact (multistore_commit_durable ms ms'). Qed.
 Print Assumptions C12_new_version.
 Print Assumptions C12_retained_versions_untouched.
 Print Assumptions C12_released_version_unreadable.
+Print Assumptions C12_multistore_commit_durable.
